@@ -189,6 +189,11 @@ def protocol_time_course_residual(
         msg = "No protocol supplied"
         raise ValueError(msg)
 
+    # the protocol run leaves its last values in the model: put them back, so that the
+    # next evaluation does not start from them
+    parameters = {
+        k: v for k, v in model.get_raw_parameters().items() if k in protocol.columns
+    }
     res = (
         Simulator(
             model,
@@ -200,6 +205,7 @@ def protocol_time_course_residual(
         )
         .get_result()
     )
+    model.update_parameters(parameters)
 
     match val := res.value:
         case Simulation():
